@@ -45,6 +45,8 @@ type Profile struct {
 	RuntimeValidators bool // only validators whose run-time semantics the router labs model
 	HostileNames      bool // parameter names that stress identifier concatenation in the templates (C09)
 	CompileHostile    bool // value shapes the acceptance survey found to break compilation (C09 only)
+	TemplateTwins     bool // same path shape under another verb with differently named {variables} (spec profiles only)
+	OAuthSchemes      bool // oauth2 (1-4 flows, differing scopes) and openIdConnect schemes in the configuration
 }
 
 var verbs = []string{"GET", "POST", "PUT", "DELETE", "PATCH"}
@@ -203,6 +205,35 @@ func (g *gen) genConfig() {
 		{Name: "bearerAuth", Type: "http", Scheme: "bearer", Description: "Bearer token"},
 		{Name: "queryKey", Type: "apiKey", In: "query", FieldName: "key", Description: "Key in query"},
 	}
+	if g.prof.OAuthSchemes && g.chance(0.6) {
+		flowNames := []string{"implicit", "password", "clientCredentials", "authorizationCode"}
+		g.r.Shuffle(len(flowNames), func(i, j int) { flowNames[i], flowNames[j] = flowNames[j], flowNames[i] })
+		sc := SecScheme{Name: "oauthScheme", Type: "oauth2", Description: "OAuth 2", Flows: map[string]*OAuthFlow{}}
+		for _, fn := range flowNames[:1+g.r.Intn(4)] {
+			f := &OAuthFlow{Scopes: map[string]string{}}
+			if fn == "implicit" || fn == "authorizationCode" {
+				f.AuthorizationURL = "https://auth.example.com/" + fn + "/authorize"
+			}
+			if fn != "implicit" {
+				f.TokenURL = "https://auth.example.com/" + fn + "/token"
+			}
+			if g.chance(0.4) {
+				f.RefreshURL = "https://auth.example.com/" + fn + "/refresh"
+			}
+			for _, s := range scopePool {
+				if g.chance(0.5) {
+					f.Scopes[s] = "Grants " + s + " via " + fn
+				}
+			}
+			sc.Flows[fn] = f
+		}
+		c.Schemes = append(c.Schemes, sc)
+		g.p.SetFeature("oauth2-scheme")
+	}
+	if g.prof.OAuthSchemes && g.chance(0.4) {
+		c.Schemes = append(c.Schemes, SecScheme{Name: "oidcScheme", Type: "openIdConnect", Description: "OIDC", OpenIDConnectURL: "https://id.example.com/.well-known/openid-configuration"})
+		g.p.SetFeature("openidconnect-scheme")
+	}
 	if g.prof.Security && g.chance(g.prof.DefaultSecP) {
 		s := g.genSecurityOne()
 		if s.Scopes == nil {
@@ -218,7 +249,11 @@ func (g *gen) genConfig() {
 var scopePool = []string{"read", "write", "admin", "read:users", "x"}
 
 func (g *gen) genSecurityOne() Security {
-	s := Security{Scheme: g.pick([]string{"apiKeyAuth", "bearerAuth", "queryKey"})}
+	names := []string{"apiKeyAuth", "bearerAuth", "queryKey"}
+	for _, sc := range g.p.Config.Schemes[minI(3, len(g.p.Config.Schemes)):] {
+		names = append(names, sc.Name)
+	}
+	s := Security{Scheme: g.pick(names)}
 	n := g.r.Intn(4)
 	if n > 0 || g.chance(0.5) {
 		s.Scopes = []string{}
@@ -650,6 +685,49 @@ func (g *gen) genControllers() {
 				}
 			}
 		}
+		if prof.TemplateTwins && g.chance(0.2) {
+			// a template-equivalent twin: same shape, other verb, other variable names
+			for si := range c.Methods {
+				src := c.Methods[si]
+				if !src.IsEndpoint() || !strings.Contains(src.Route, "{") {
+					continue
+				}
+				twin := g.genMethod(&c, len(c.Methods))
+				if !twin.IsEndpoint() || twin.Verb == src.Verb {
+					break
+				}
+				var keep []Param
+				names := map[string]bool{}
+				for _, pr := range twin.Params {
+					if pr.In != "path" || pr.GoName == "tenant" {
+						keep = append(keep, pr)
+						names[pr.GoName] = true
+					}
+				}
+				route := src.Route
+				ok := true
+				var pp []Param
+				for _, pr := range src.Params {
+					if pr.In != "path" || pr.GoName == "tenant" {
+						continue
+					}
+					np := pr
+					np.GoName, np.Wire, np.Validate = pr.GoName+"Alt", "", ""
+					if names[np.GoName] {
+						ok = false
+					}
+					route = strings.Replace(route, "{"+pr.WireName()+"}", "{"+np.GoName+"}", 1)
+					pp = append(pp, np)
+				}
+				if ok && len(pp) > 0 {
+					twin.Route = route
+					twin.Params = append(pp, keep...)
+					c.Methods = append(c.Methods, twin)
+					p.SetFeature("template-equivalent-twin")
+				}
+				break
+			}
+		}
 		p.Controllers = append(p.Controllers, c)
 	}
 }
@@ -1009,4 +1087,11 @@ func (g *gen) genMethod(c *Controller, idx int) Method {
 		}
 	}
 	return m
+}
+
+func minI(a, b int) int {
+	if a < b {
+		return a
+	}
+	return b
 }
